@@ -359,30 +359,33 @@ def c01_r4(ctx):
 def c01_r5(ctx):
     repo = ctx.repo
     fi = repo.func(RT + "_parse_field_selection_set_types")
-    eff = lambda c: isinstance(c.func, ast.Attribute) and c.func.attr in ("extend", "append")
-    o = [x for x in Interp(fi, lambda e: True if norm(e) == "selection_set" else None, is_effect=eff).run() if any("loop body once" in t for t in x.trace)]
+    from ..util import comp_struct
+    o = [x for x in Interp(fi, lambda e: True if norm(e) == "selection_set" else None).run() if x.kind == "return"]
     probs = []
-    if len(o) != 1:
-        probs.append(f"{len(o)} loop paths (a filter inside the loop would skip classes)")
+    cs_ = comp_struct(strip_pre(o[0].deref(o[0].value))) if len(o) == 1 and o[0].value is not None else None
+    if cs_ is None:
+        probs.append(f"{len(o)} paths / the generated classes are not the concatenation over the related classes")
     else:
-        effs = o[0].effects
-        calls = [c for e in effs for c in ast.walk(e) if isinstance(c, ast.Call) and dotted(c.func) == "self._parse_type_definition"]
-        if len(calls) != 1:
-            probs.append("no single _parse_type_definition call per related class")
+        elt, gens = cs_
+        if elt != "$1" or len(gens) != 2 or gens[0] != ("field_context.related_classes", []) or gens[1][1]:
+            probs.append(f"generated classes are {cs_}: expected every class of every related class (a filter would skip classes)")
         else:
-            c = calls[0]
-            el = "<elem>(field_context.related_classes)"
-            want = {"class_name": f"{el}.class_name", "type_name": f"{el}.type_name", "selection_set": "selection_set"}
-            for k_, v_ in want.items():
-                got = kw(c, k_)
-                if got is None or norm(got) != v_:
-                    probs.append(f"{k_} is {norm(got) if got is not None else None}, expected {v_}")
-            tv = kw(c, "typename_values")
-            if tv is None or f"[{el}.type_name]" not in norm(tv):
-                probs.append("typename_values is not selected by the related class's type name")
-        rv = o[0].value
-        if not (isinstance(rv, ast.Name) and any(isinstance(e, ast.Call) and norm(e.func) == f"{rv.id}.extend" for e in effs)):
-            probs.append("generated classes are not collected into the returned list")
+            try:
+                c = ast.parse(gens[1][0].replace("$0", "_REL_"), mode="eval").body
+            except SyntaxError:
+                c = None
+            if not (isinstance(c, ast.Call) and dotted(c.func) == "self._parse_type_definition"):
+                probs.append("no single _parse_type_definition call per related class")
+            else:
+                el = "_REL_"
+                want = {"class_name": f"{el}.class_name", "type_name": f"{el}.type_name", "selection_set": "selection_set"}
+                for k_, v_ in want.items():
+                    got = kw(c, k_)
+                    if got is None or norm(got) != v_:
+                        probs.append(f"{k_} is {norm(got) if got is not None else None}, expected {v_}")
+                tv = kw(c, "typename_values")
+                if tv is None or f"[{el}.type_name]" not in norm(tv):
+                    probs.append("typename_values is not selected by the related class's type name")
     ctx.check(not probs, key(fi, "related classes"), "; ".join(probs), fi.loc(), okmsg="every related class generated from the field's selection set")
     o = Interp(fi, lambda e: False if norm(e) == "selection_set" else None).run()
     ctx.check(len(o) == 1 and norm(o[0].value) == "[]", key(fi, "leaf"), "a field without selection set must produce no classes", fi.loc(), okmsg="leaf field: no nested classes")
@@ -632,9 +635,11 @@ def c08_r3(ctx):
     good = len(loops) == 1 and norm(loops[0].iter) == f"sorted({outer.node.args.args[1].arg})" and len(loops[0].body) == 1 and norm(loops[0].body[0]) == f"{vname}({norm(loops[0].target)})"
     ctx.check(good, key(outer, "roots"), "roots must be visited in sorted order and the post-order list returned", outer.loc(), okmsg="roots sorted, post-order returned")
     cd = repo.func("client_generators.fragments:FragmentsGenerator._get_sorted_class_defs")
-    loops = [n for n in cd.node.body if isinstance(n, ast.For)]
-    good = len(loops) == 1 and norm(loops[0].iter).startswith("self._get_sorted_fragments_names(") and len(loops[0].body) == 1 \
-        and norm(loops[0].body[0]) == f"sorted_class_defs.extend(class_defs_dict[{norm(loops[0].target)}])"
+    from ..util import comp_struct
+    o = [x for x in Interp(cd, lambda e: None).run() if x.kind == "return"]
+    cs_ = comp_struct(strip_pre(o[0].deref(o[0].value))) if len(o) == 1 and o[0].value is not None else None
+    good = cs_ is not None and cs_[0] == "$1" and len(cs_[1]) == 2 and cs_[1][0][0].startswith("self._get_sorted_fragments_names(") and not cs_[1][0][1] \
+        and cs_[1][1] == ("class_defs_dict[$0]", [])
     ctx.check(good, key(cd, "concatenation"), "class definitions are not concatenated in the post-order of their fragments", cd.loc(), okmsg="classes concatenated in fragment post-order")
     gen = repo.func("client_generators.fragments:FragmentsGenerator.generate")
     deps = [st for st in ast.walk(gen.node) if isinstance(st, ast.Assign) and norm(st.targets[0]).startswith("dependencies_dict[")]
